@@ -63,9 +63,19 @@ pub fn set_clock(ms: i64) {
     let _ = ms;
 }
 
+/// slots a and c are favourites; b carries tag t1, c carries t1 and t2 (exercise the counters)
 fn note(label: &str, text: &str) -> (SecretMeta, Secret) {
     let secret = Secret::Note { text: text.to_string().into(), user_data: Default::default() };
-    let meta = SecretMeta::new(label.to_string(), secret.kind());
+    let mut meta = SecretMeta::new(label.to_string(), secret.kind());
+    if label.ends_with('a') || label.ends_with('c') {
+        meta.set_favorite(true);
+    }
+    if label.ends_with('b') {
+        meta.set_tags(["t1".to_string()].into_iter().collect());
+    }
+    if label.ends_with('c') {
+        meta.set_tags(["t1".to_string(), "t2".to_string()].into_iter().collect());
+    }
     (meta, secret)
 }
 
@@ -191,7 +201,10 @@ impl World {
                         }
                         _ => "?".into(),
                     };
-                    items.push(format!("{}={}", meta.label(), text));
+                    let mut tags: Vec<String> = meta.tags().iter().cloned().collect();
+                    tags.sort();
+                    items.push(format!("{}={}{}{}", meta.label(), text, if meta.favorite() { "!" } else { "" },
+                        tags.iter().map(|t| format!("#{t}")).collect::<String>()));
                 }
                 Err(_) => items.push(format!("{}=UNDECRYPTABLE", &id.to_string()[..8])),
             }
@@ -270,7 +283,10 @@ impl World {
                                 let body = match ap.decrypt_secret(c, None).await {
                                     Ok((meta, Secret::Note { text, .. })) => {
                                         use secrecy::ExposeSecret;
-                                        format!("{}={}", enc(meta.label()), enc(text.expose_secret()))
+                                        let mut tags: Vec<String> = meta.tags().iter().cloned().collect();
+                                        tags.sort();
+                                        format!("{}={}{}{}", enc(meta.label()), enc(text.expose_secret()), if meta.favorite() { "!" } else { "" },
+                                            tags.iter().map(|t| format!("#{t}")).collect::<String>())
                                     }
                                     Ok((meta, _)) => format!("{}=?", enc(meta.label())),
                                     Err(_) => "UNDECRYPTABLE".into(),
@@ -305,7 +321,9 @@ impl World {
             vc.sort();
             let mut kc: Vec<String> = count.kinds().iter().map(|(k, n)| format!("{k}:{n}")).collect();
             kc.sort();
-            lines.push(format!("{who} index docs={} vaults={} kinds={} favs={}", docs.join("|"), vc.join(";"), kc.join(";"), count.favorites()));
+            let mut tc: Vec<String> = count.tags().iter().map(|(t, n)| format!("{t}:{n}")).collect();
+            tc.sort();
+            lines.push(format!("{who} index docs={} vaults={} kinds={} favs={} tags={}", docs.join("|"), vc.join(";"), kc.join(";"), count.favorites(), tc.join(";")));
         }
     }
 
@@ -536,10 +554,22 @@ impl World {
                 res!(account.force_merge_folder(&fid, diff, &mut outcome).await)
             }
             "o" => {
+                // a real reload: a fresh LocalAccount built from storage (sign_out + sign_in on the
+                // same value keeps the folders it already holds)
                 let mut account = acct.lock().await;
                 let _ = account.sign_out().await;
+                let target = account.backend_target().await;
                 let key: AccessKey = password().into();
-                res!(account.sign_in(&key).await)
+                match sos_account::LocalAccount::new_unauthenticated(self.account_id, target).await {
+                    Ok(mut fresh) => {
+                        let r = fresh.sign_in(&key).await;
+                        let _ = fresh.initialize_search_index().await;
+                        let out = res!(r);
+                        *account = fresh;
+                        out
+                    }
+                    Err(e) => res!(Err::<(), _>(e)),
+                }
             }
             _ => "badop".into(),
         }
